@@ -460,6 +460,48 @@ func domRfl(r *gen.Rng, n int, thorough bool, o *Out) {
 		if gotS != wantS {
 			o.Fail("C18", "reflect/structure-equals-json-round-trip", "reflected "+gotS+" json "+wantS, "reflect/structure-equals-json-round-trip "+sig, "rfl:"+sig)
 		}
+		// the Map / List interfaces agree with themselves and with the generic twin, under both allocators
+		safe(func() string {
+			rv, err := value.NewValueReflect(ptr.Interface())
+			if err != nil {
+				return ""
+			}
+			var walk func(v value.Value, path string)
+			walk = func(v value.Value, path string) {
+				switch {
+				case v.IsMap():
+					m := v.AsMap()
+					n := 0
+					var keys []string
+					m.Iterate(func(k string, _ value.Value) bool { n++; keys = append(keys, k); return true })
+					if m.Length() != n || m.Empty() != (n == 0) {
+						o.Fail("C18", "reflect/length-equals-iteration", fmt.Sprintf("%s: Length %d, Empty %v, iterated %d", path, m.Length(), m.Empty(), n),
+							"reflect/length-equals-iteration "+sig, "rfl:"+sig)
+					}
+					for _, k := range keys {
+						if x, ok := m.Get(k); ok {
+							walk(x, path+"."+k)
+						} else {
+							o.Fail("C18", "reflect/iterated-key-gettable", path+"."+k, "reflect/iterated-key-gettable "+sig, "rfl:"+sig)
+						}
+					}
+				case v.IsList():
+					l := v.AsList()
+					for i := 0; i < l.Length(); i++ {
+						walk(l.At(i), fmt.Sprintf("%s[%d]", path, i))
+					}
+				}
+			}
+			walk(rv, "")
+			gv := value.NewValueInterface(want)
+			for _, a := range []value.Allocator{value.HeapAllocator, value.NewFreelistAllocator()} {
+				if !value.EqualsUsing(a, rv, gv) || !value.EqualsUsing(a, gv, rv) || value.CompareUsing(a, rv, gv) != 0 {
+					o.Fail("C18", "reflect/equals-its-json-round-trip", "", "reflect/equals-its-json-round-trip "+sig, "rfl:"+sig)
+					break
+				}
+			}
+			return ""
+		})
 		if unstructS != wantS {
 			o.Fail("C18", "reflect/unstructured-equals-json-round-trip", "Unstructured() "+unstructS+" json "+wantS, "reflect/unstructured-equals-json-round-trip "+sig, "rfl:"+sig)
 		}
